@@ -18,7 +18,7 @@ Definition exg_L (l : leaf) : Qc :=
 Definition exg_B (b : bleaf) : bool := false.
 Definition exg_tan (_ : Qc) : Qc := ex_t.
 Definition exg_id (q : Qc) : Qc := q.
-Definition exg_sc (_ : string) : Qc := 1%Qc.
+Definition exg_sc (_ : runit) : Qc := 1%Qc.
 Definition exg_A : axfacts QcF := gen_axis (K:=QcF) 8 (Q2Qc (-7 # 2)) (Q2Qc (7 # 2)) exg_sc.
 Definition exg_orf : Z -> Qc :=
   rs_built (gen_rfk_lin_ctor (K:=QcF) exg_tan exg_id exg_id 1 8 8 exg_A exg_A 1%Qc 1%Qc
